@@ -300,6 +300,13 @@ def gen_comment_pair(rng):
     return w, wo
 
 
+def gen_unclosed_comment(rng):
+    """a text that ends inside a block comment of the grammar (unclosed_block_comment_rejected): must be invalid"""
+    toks = gen_tokens(rng)
+    k = rng.randrange(len(toks) + 1)
+    return b"".join(toks[:k]) + b"/*" + gen_block_body(rng)
+
+
 # texts around the closing rule of block comments (a '*' takes the next byte with it): closed / not closed
 STAR_COMMENTS = [b"[1]/**/", b"[1]/***/", b"[1]/****/", b"[1]/*****/", b"[1]/* **/", b"[1]/* * */", b"[1]/* ***/", b"/***/[1]", b"/****/[1]", b"[1/***/,2]/**/",
                  b"[1/***/ /**/,2]", b"[1/**/,2]", b"[1,/*/*/2]", b"[1,/*/2]", b"[1,/**//**/2]", b"[1,//**/\n2]", b"[1,/*//*/2]", b"[1/", b"[1/ /", b"[1]/", b"[1]//", b"[1]/*",
@@ -512,6 +519,10 @@ def gen(rng, tier):
         w, wo = gen_comment_pair(rng)
         xdocs.append(w)
         cases.append(ops_for(rng, w, allcuts, 6, xdl=True) + ["xdec " + hexs(wo), "dec " + hexs(w)])
+    for i in range(60 * N):
+        t = gen_unclosed_comment(rng)
+        xdocs.append(t)
+        cases.append(ops_for(rng, t, allcuts, 4, xdl=True))
     for t in STAR_COMMENTS:
         xdocs.append(t)
         cases.append(ops_for(rng, t, 300, 300, xdl=True))
@@ -812,6 +823,13 @@ def extra(ctx):
                                      % (pout[i][:80], pout[i + 1][:80]), name="comment_transparent oracle"))
     if pcrash and len(fails) < 3:
         fails.append(Failure("crash", plines[:2], [], [], crash=pcrash, clause="memory error while decoding commented texts: %s" % pcrash, name="comment_transparent oracle"))
+    ulines = ["xdec " + hexs(gen_unclosed_comment(rng)) for _ in range(500)]
+    uout, ucrash, uerr = core.run_impl(ctx["exe"], ulines, timeout=600)
+    for l, o in zip(ulines, uout):
+        if o != "none" and len(fails) < 3:
+            fails.append(Failure("diverge", [l], [o], [], clause="a text ending inside a block comment was accepted (implementation alone): %s" % o[:80],
+                                 name="unclosed_block_comment_rejected oracle"))
+    ctx["stats"]["unclosed_comments_checked_on_impl_alone"] = len(uout)
     ctx["stats"]["comment_pairs_checked_on_impl_alone"] = min(len(pout), len(plines)) // 2
     ctx["stats"]["comment_pairs_valid"] = sum(1 for i in range(0, min(len(pout), len(plines)) - 1, 2) if pout[i] != "none")
     return fails
@@ -891,7 +909,8 @@ LEVEL_TEXT = ("Proved in Lean 4, for ALL byte strings / chunkings / documents, a
               "is unchanged by contexts added below the stack); block_comment_transparent / line_comment_transparent / rfc_accept_after_comment (XDL comments: a "
               "block comment /* b */ with b in the grammar XdlCmt.BlockBody - a byte other than '*', or '*' together with the byte after it unless that byte is '/' - "
               "met after any prefix that leaves the parser outside comments and outside the states STRING/QPROPERTY/ESCAPE, also in the middle of a number or "
-              "name, decodes like the text without it; a line comment //...LF|CR decodes like its LF|CR alone; tied by K on texts of exactly that grammar and, on "
+              "name, decodes like the text without it; a line comment //...LF|CR decodes like its LF|CR alone; comments_transparent: any number of them, removed in any order (StripsTo); "
+              "unclosed_block_comment_rejected: a text ending inside such a comment, e.g. [1]/***/, is invalid; tied by K on texts of exactly that grammar and, on "
               "the real library alone, by comparing the decode of 1500 commented texts with the decode of the uncommented ones on every run). myatoiz_from_source / myatoiz_no_overflow (the integer conversion of state INT is the function regenerated from "
               "src/String.cpp on every run, and cannot overflow an int on what INT hands to it). The model is tied to the code on every run by the "
               "correspondence check under ASan/UBSan (whole decodes, chunked feeding, prefixes; grammar-generated JSON/XDL, mutations, raw bytes) "
